@@ -668,9 +668,11 @@ def read_observer(o, eng=None):
     tc = A['_trick_cards']
     h = A['playing_history'].attrs['_history']
     return dict(L=zenum(A['leader']), A=zenum(A['active_player']), T=zint(A['trick_num']), t=len(tc),
-                table=[(zint(c.attrs['rank']), zenum(c.attrs['suit'])) for c in tc],
+                table=[(zint(c.attrs['rank']) if isinstance(c, SObj) else z3.IntVal(c.rank),
+                        zenum(c.attrs['suit']) if isinstance(c, SObj) else z3.IntVal(c.suit.value)) for c in tc],
                 used=A['used_cards'], ns=zint(A['taken_tricks'][Pair.NS]), ew=zint(A['taken_tricks'][Pair.EW]),
-                hist_app=list(h.app), base=h.base + len(h.app), hand=A['_hand'], dummy_hand=A['_dummy_hand'],
+                hist_app=list(h.app) if isinstance(h, SLog) else list(h),
+                base=h.base + len(h.app) if isinstance(h, SLog) else z3.IntVal(len(h)), hand=A['_hand'], dummy_hand=A['_dummy_hand'],
                 contract_obj=A['contract'], declarer=zenum(A['declarer']), dummy=zenum(A['dummy']), trump=zenum(A['trump']))
 
 
@@ -797,6 +799,92 @@ def case_observer(props, t, mode, turn=None, over=False):
                 bits_eq(dh, _pick(dummy, postF['hands'])) if dh is not None else z3.BoolVal(False))
         return dict(outcome='both accepted', checks=chk, refine=refine)
     return hx.explore_case(path, dict(max_paths=50000))
+
+
+# --------------------------------------------------------------------------
+# observer BMC: full game x observer from the REAL constructors, symbolic deal, first n accepted plays
+# (decides alone when the observer keeps state the product step's invariant does not describe)
+# --------------------------------------------------------------------------
+def case_bmc_observer(props, n, declarer, obs_seat):
+    from bridge_env import Hands, ObservedPlayingPhase, Pair, Player, PlayingPhaseWithHands
+
+    def path(eng):
+        eng.summarize.add(PlayingPhaseWithHands.calc_highest)
+        c, dom, v = sym_contract()
+        eng.assume(dom)
+        eng.assume(v['dcl'] == declarer)
+        hs = {p: cardmod.fresh_cardset(f'hand{p}') for p in range(1, 5)}
+        for i in range(52):
+            bits = [hs[p].bits[i] for p in range(1, 5)]
+            eng.assume(z3.And([z3.Not(z3.And(bits[a], bits[b])) for a in range(4) for b in range(a + 1, 4)]))
+        for p in range(1, 5):
+            eng.assume(z3.And(hs[p].axioms(), hs[p].n == 13))
+        deal = {p: hs[p].copy() for p in range(1, 5)}
+        c.attrs['declarer'] = Player(declarer)
+        dummy = (declarer + 1) % 4 + 1
+        F = eng.construct(PlayingPhaseWithHands, [c, SObj(Hands, {SEATS[p]: hs[p] for p in range(1, 5)})], {})
+        O = eng.construct(ObservedPlayingPhase, [c, Player(obs_seat), deal[obs_seat].copy()], {})
+        plays = [(z3.Int(f'p{k}_rank'), z3.Int(f'p{k}_suit')) for k in range(n)]
+        seats = []
+        chk = []
+        done = [0]
+
+        def add(tags, label, cond):
+            for p in sorted(tags & props):
+                chk.append((f'{p}: {label}', cond))
+
+        def cex(m):
+            ev = lambda z: hx.mval(m, z)
+            k = done[0]
+            steps = [[(ev(s) - 1) * 13 + ev(r) - 2, ev(seats[j])] for j, (r, s) in enumerate(plays[:k + 1])]
+            return {'kind': 'observer', 'props': sorted(props), 'observer': obs_seat, 'mode': 'bmc',
+                    'contract': {'bid': ev(v['b']), 'x': ev(v['x']), 'xx': ev(v['xx']), 'vul': ev(v['vul']), 'declarer': declarer},
+                    'deal': {str(p): [i for i in range(52) if ev(deal[p].bits[i]) is True] for p in range(1, 5)},
+                    'plays': steps[:-1], 'attempt': steps[-1]}
+        outcome = 'ran'
+        for k, (r, s) in enumerate(plays):
+            done[0] = k
+            eng.assume(z3.And(2 <= r, r <= 14, 1 <= s, s <= 4))
+            stF = read_state(F, dict(b=v['b']))
+            turn = stF['A']
+            seats.append(turn)
+            try:
+                eng.call_function(PlayingPhaseWithHands.play_card_by_player, [F, cardmod.sym_card(r, s), SEnum(Player, turn)], {})
+            except symx.RaiseEx:
+                outcome = 'full game refused'        # not a play the table manager accepted: nothing to compare
+                break
+            try:
+                eng.call_function(ObservedPlayingPhase.play_card_by_player, [O, cardmod.sym_card(r, s), SEnum(Player, turn)], {})
+            except symx.RaiseEx:
+                add({'C11'}, f'play {k}: the observer never rejects a play that the full-information game accepted', z3.BoolVal(False))
+                outcome = 'observer refused'
+                break
+            postF = read_state(F, dict(b=v['b']))
+            if k == 0 and obs_seat != dummy:
+                eng.call_function(ObservedPlayingPhase.set_dummy_hand, [O, postF['hands'][dummy].copy()], {})
+            postO = read_observer(O, eng)
+            rel = [postO['L'] == postF['L'], postO['A'] == postF['A'], postO['T'] == postF['T'], z3.BoolVal(postO['t'] == postF['t']),
+                   postO['ns'] == postF['ns'], postO['ew'] == postF['ew'], postO['base'] == postF['base'],
+                   postO['declarer'] == postF['declarer'], postO['dummy'] == postF['dummy'], postO['trump'] == postF['trump']]
+            if postO['t'] == postF['t']:
+                rel += [z3.And(a[0] == b[0], a[1] == b[1]) for a, b in zip(postO['table'], postF['table'])]
+            if len(postO['hist_app']) == len(postF['hist_app']):
+                for a, b in zip(postO['hist_app'], postF['hist_app']):
+                    la, ca = _th_fields(a)
+                    lb, cb = _th_fields(b)
+                    rel += [la == lb, z3.BoolVal(len(ca) == len(cb))] + [z3.And(x[0] == y[0], x[1] == y[1]) for x, y in zip(ca, cb)]
+            else:
+                rel.append(z3.BoolVal(False))
+            add({'C11'}, f'after play {k}: observer and full game agree on turn, trick number, leader, table, trick history and counts',
+                z3.And(rel))
+            add({'C11', 'C05'}, f'after play {k}: observer\'s own hand = that seat\'s hand in the full game',
+                bits_eq(postO['hand'], postF['hands'][obs_seat]))
+            if obs_seat != dummy:
+                dh = postO['dummy_hand']
+                add({'C11', 'C05'}, f'after play {k}: observer\'s view of dummy = dummy\'s hand in the full game',
+                    bits_eq(dh, postF['hands'][dummy]) if dh is not None else z3.BoolVal(False))
+        return dict(outcome=outcome, checks=chk, cex=cex)
+    return hx.explore_case(path, dict(max_paths=100000))
 
 
 # --------------------------------------------------------------------------
